@@ -654,8 +654,11 @@ func c17Case(rt *rapid.T, rec *vh.Recorder) (*c17Mismatch, *c17CaseFile) {
 	keys := verifJKeys
 	classes := map[string]bool{}
 	switch v := rapid.IntRange(0, 11).Draw(rt, "keyalphabet"); {
-	case v == 10:
-		// the empty member name (valid JSON, valid in a path as $."")
+	case v == 10 && !c17Excluded(c17FEmptyKey):
+		// the empty member name (valid JSON, valid in a path as $.""); while the finding is open
+		// documents do not contain it either: it also sorts before [0] in the stored document's
+		// location order, so [0]/[last] applied to an object that has it goes astray
+		// (Replace($[0], false) on {"":[…],…} is a no-op)
 		keys = append(append([]string{}, verifJKeys...), "")
 		classes["keys:empty"] = true
 	case v == 11 && !c17Excluded(c17FEscapedKey):
@@ -875,7 +878,7 @@ func TestVerif_C17(t *testing.T) {
 		"where go-mysql-server's in-memory implementation is itself not usable as a reference only error presence is compared: paths that continue after a location that does not exist (it ignores the remaining legs), [0]/[last] on a non-array followed by further legs (it drops them), Lookup with \\\" in a member name (its jsonpath library cannot parse it; there the expected value is taken from the document when every leg exists), and paths on which it panics")
 	defer rec.Write(t)
 	t.Run("pinned", c17RunPins)
-	vh.Check(t, "docs", 5000, 12000, func(rt *rapid.T) {
+	vh.Check(t, "docs", 5000, 10000, func(rt *rapid.T) {
 		if m, _ := c17Case(rt, rec); m != nil {
 			rt.Fatalf("%s", m.msg)
 		}
